@@ -37,13 +37,20 @@ const host: ModuleResolutionHost = {
 };
 
 let compilerOptionsCache: any = null;
+// Where the search for tsconfig.json starts: the directory of the project file, so that the same
+// project gives the same output from whatever working directory the command is run.
+let tsconfigSearchStart: string | null = null;
 const resolveCompilerOptions = () => {
   if (compilerOptionsCache) {
     return compilerOptionsCache;
   }
 
   // Find tsconfig.json file
-  const tsconfigPath = findConfigFile(process.cwd(), tsSys.fileExists, "tsconfig.json");
+  const tsconfigPath = findConfigFile(
+    tsconfigSearchStart ?? process.cwd(),
+    tsSys.fileExists,
+    "tsconfig.json",
+  );
 
   if (!tsconfigPath) {
     return {};
@@ -178,8 +185,10 @@ type WasmDiagnostic = {
 
 export class Bundler {
   cbs: ((path: string) => void)[];
-  constructor(verbose: boolean) {
+  constructor(verbose: boolean, projectDir?: string) {
     (globalThis as any).verbose = verbose;
+    tsconfigSearchStart = projectDir ?? null;
+    compilerOptionsCache = null;
     wasm.init(verbose);
 
     this.cbs = [];
